@@ -44,3 +44,17 @@ register('C06', [
     'the leg-scanning loop and selector plumbing of eval_job_insertion_in_route (needs InsertionContext)',
     'time-dependent routing; reload intervals (>1 marker interval); fractional times; breaks/reserved times',
 ])
+
+register('C09', [
+    'cost component lengths are case-split concretely; +/- inverse law only on integer-valued components |v| <= 2^24',
+], [
+    'goals with multi-objective layers built in goal_reader.rs; fitness extraction from real solutions',
+    'cost vectors that spill to the heap (length > 6) in quick tier',
+])
+register('C15', [
+    'rayon implements its documented fold/reduce contract (result = reducer applied along some binary tree with identity leaves)',
+    'Arc::drop_slow stubbed to a no-op (payload leaked) - drop glue is not the subject',
+], [
+    'the per-leaf fold step eval_job_insertion_in_route (needs InsertionContext); noise/blink/farthest selectors (randomised by design)',
+    'validity of full solver runs under Parallelism::new(p,t)',
+])
